@@ -20,6 +20,10 @@ CHECKS = {
   "text": "Seeded search over schedules x client programs x executor stacks; the scheduler itself decides deadlock (wait-for cycle among lock waiters, lock held forever by a thread that is blocked forever, busy-wait livelock holding a lock), so every explored execution is decided exactly; unexplored interleavings are not covered.",
   "note": "Simulated Lock/RLock/Condition/Event/Semaphore/SimpleQueue/Thread mirror CPython 3.12 semantics; line-granular pre-emption under the GIL; nested code only submits; shutdown from one thread.",
   "design": "10 (C04), 3, 5"},
+ "C05": {
+  "text": "Seeded search over policies (ExceptionRetryPolicy parameters, custom policies retrying on results or raising at call k) x outcome scripts x 1-4 concurrent submissions x delegates x schedules, in virtual time: attempts never overlap, the policy is consulted once per finished attempt with attempts 1,2,3..., attempt k+1 starts no earlier than the delay and - with a free worker and no stall - within 5 ms of it, exact invocation counts and delays, no done()/callback before the final attempt ended, final outcome identity.",
+  "note": "The recording policy subclasses the library's ExceptionRetryPolicy (real back-off code); delays of 0-2.5 s (and 1000 s) cost nothing in virtual time; submissions still pending when a stall-heavy run ends are left to C03.",
+  "design": "10 (C05)"},
  "C06": {
   "text": "Seeded search over stacks (spy delegate / real pool) and f_* combinators with cancel() issued 1-3 times from 1-2 threads at drawn points of each future's life x schedules (line-level pre-emption puts cancels inside hand-over windows). History oracles: nothing starts or is re-submitted after a True cancel, False while running then normal completion, no RetryExecutor re-submission after any cancel() returned, forwarding to the innermost pending work (spy records), never through f_nocancel.",
   "note": "Instance-level submit taps and spy futures observe hand-overs; a harness-side probe on ThrottleFuture._set_delegate only refines the signature of known finding F12; poll-stage cancels may succeed after the callable finished.",
